@@ -104,6 +104,7 @@ static volatile sig_atomic_t timed_out;
 
 /* window state */
 static int win_id, win_open;
+static int win_owner; /* task index that opened the current window; markers of other tasks are only logged */
 static char win_op[128];
 /* force window */
 static int fw_active;
@@ -269,7 +270,19 @@ static void handle_marker(struct task *t, char *text, size_t len) {
         }
     }
     const char *op = f[1] ? f[1] : "", *phase = f[2] ? f[2] : "", *rest = f[3] ? f[3] : "";
+    if (win_open && t->idx != win_owner) {
+        /* e.g. a forked child that came back into the driver: never moves the window */
+        fprintf(logf, "{\"ev\":\"mark\",\"task\":%d,\"pid\":%d,\"win\":%d,\"foreign\":true,\"op\":", t->idx, t->pid, win_id);
+        json_str(logf, op, strlen(op));
+        fprintf(logf, ",\"phase\":");
+        json_str(logf, phase, strlen(phase));
+        fprintf(logf, ",\"rest\":");
+        json_str(logf, rest, strlen(rest));
+        fprintf(logf, "}\n");
+        return;
+    }
     if (!strcmp(phase, "begin")) {
+        win_owner = t->idx;
         win_id++;
         win_open = 1;
         snprintf(win_op, sizeof win_op, "%s", op);
@@ -407,6 +420,11 @@ static void on_exit_stop(struct task *t, struct user_regs_struct *regs) {
             t->src == 1 ? "exe" : "lib", sysname(t->nr));
     for (int i = 0; i < 6; i++) fprintf(logf, "%s%lld", i ? "," : "", (long long)t->args[i]);
     fprintf(logf, "],\"ret\":%lld", ret);
+    if (real == 0 && t->inj != 's' && (t->nr == SYS_pipe || t->nr == SYS_pipe2 || t->nr == SYS_socketpair)) {
+        int pair[2] = {-1, -1};
+        if (read_mem(t->pid, t->args[t->nr == SYS_socketpair ? 3 : 0], (char *)pair, sizeof pair) == 0)
+            fprintf(logf, ",\"out\":[%d,%d]", pair[0], pair[1]);
+    }
     if (t->inj) fprintf(logf, ",\"inj\":{\"mode\":\"%c\",\"real\":%lld}", t->inj, real);
     fprintf(logf, "}\n");
 }
